@@ -102,9 +102,24 @@ Proof.
 Qed.
 Print Assumptions C31_full_statement_refuted.
 
-(* known finding comment_on_directive_line:  "/**/# 5"  makes _put_back_line_directives raise *)
+(* known finding comment_on_directive_line:  "/**/# 5"  is refused by _put_back_line_directives
+   (a CDefError since the fix of C30's line_directive_put_back; the cdef still changes meaning) *)
 Example C31_comment_before_directive_raises :
-  preprocess [47;42;42;47;35;32;53] = Err AssertionError.
+  preprocess [47;42;42;47;35;32;53] = Err CDefError.
+Proof. vm_compute. reflexivity. Qed.
+
+(* \r, \f, \v are turned into blanks first (fixed: other_whitespace): same words, none left *)
+Theorem C31_normalize_keeps_words : forall s, words (normalize_ws s) = words s.
+Proof. exact normalize_keeps_words. Qed.
+Print Assumptions C31_normalize_keeps_words.
+
+Theorem C31_normalize_removes : forall s, forallb (fun c => negb (other_ws c)) (normalize_ws s) = true.
+Proof. exact normalize_removes. Qed.
+Print Assumptions C31_normalize_removes.
+
+(* fixed: define_continuation_before_name.  "# \<nl> define \<nl> X 1\n"  is the macro X = "1" *)
+Example C31_define_continuation_before_name :
+  preprocess [35;32;92;10;32;100;101;102;105;110;101;32;92;10;32;88;32;49;10] = Ok ([10], [([88], [49])]).
 Proof. vm_compute. reflexivity. Qed.
 
 (* ---- non-vacuity ---- *)
